@@ -227,6 +227,29 @@ def run_property(pid, tier='quick', seed=0):
                 bounded.append(b)
             except Exception as e:
                 errors.append((q, 'stand-in failed: %s: %s' % (type(e).__name__, e)))
+    # ------------------------------------------------------------------ CPython cross-check of proved functions
+    # every function whose obligations were all discharged and that has a native reading of its contract is also run
+    # natively over that reading's small scope: a breach there means the verifier (or the contract's native twin) is
+    # wrong about the real interpreter, and it is a failing input on the real code either way
+    crosscheck = {}
+    proved_fns = {}
+    for q, o in all_obs:
+        proved_fns.setdefault(q, []).append(o.status)
+    for q in sorted(proved_fns):
+        if q in _SEARCH and all(st_ == 'proved' for st_ in proved_fns[q]) and q not in generic_standins:
+            try:
+                found = _SEARCH[q]()
+            except Exception as e:
+                errors.append(('crosscheck:' + q, '%s: %s' % (type(e).__name__, e)))
+                continue
+            if found is None:
+                crosscheck[q] = 'native reading agrees over its small scope'
+            else:
+                crosscheck[q] = 'NATIVE BREACH: %s' % (found[1],)
+                bounded.append({'name': 'CPython cross-check of %s (all obligations discharged, native reading fails)' % q,
+                                'standin_for': q, 'evaluations': 1, 'distinct_nontrivial': 1, 'exhaustive': False,
+                                'rule': 'native reading of the contract over its built-in small-scope generator',
+                                'violations': [{'key': str(found[0]), 'detail': found[1]}]})
     # ------------------------------------------------------------------ verdict
     findings = [f for f in load_findings() if f.prop == pid and f.kind == 'finding']
     violations, known = [], []
@@ -342,6 +365,7 @@ def run_property(pid, tier='quick', seed=0):
         'lemmas': ['%s.%s' % l for l in prop.lemmas],
         'callee_contracts_used': sorted(contracts_used),
         'stub_witnesses': witnesses,
+        'cpython_crosscheck': crosscheck,
         'trusted_contracts_used': sorted(c for c in contracts_used if (_reg.get(c) is not None and _reg.get(c).trusted)),
         'inlined_helpers': sorted(inlined),
         'backend': 'z3-solver 5.1.0 (python API), one solver per obligation',
